@@ -120,7 +120,7 @@ func (s *manager) runSetupper(ctx context.Context) {
 			case <-ctx.Done():
 				return
 			case job := <-ch:
-				err := worker.setup(ctx, job)
+				err := worker.safeSetup(ctx, job)
 				if err != nil {
 					job.Channel.Close()
 				}
@@ -133,6 +133,17 @@ func (s *manager) DisconnectClients(ctx context.Context) {
 	for _, session := range s.local.ListSessions() {
 		s.shutdownSession(ctx, session)
 	}
+}
+
+// safeSetup runs setup, and turns a panic raised while decoding what the client sent into an error.
+func (s *setupWorker) safeSetup(ctx context.Context, m transport.Metadata) (err error) {
+	defer func() {
+		if r := recover(); r != nil {
+			L(ctx).Error("session setup crashed", zap.Any("panic", r))
+			err = ErrProtocolViolation
+		}
+	}()
+	return s.setup(ctx, m)
 }
 
 func (s *setupWorker) setup(ctx context.Context, m transport.Metadata) error {
@@ -216,11 +227,17 @@ func (s *setupWorker) setup(ctx context.Context, m transport.Metadata) error {
 
 func (s *connectionWorker) serve(ctx context.Context, session *sessions.Session) {
 	sessionCtx, cancel := context.WithCancel(ctx)
+	defer s.manager.shutdownSession(ctx, session)
+	defer cancel()
+	defer func() {
+		// A malformed packet can make the decoder panic: only this session must end.
+		if r := recover(); r != nil {
+			L(ctx).Error("session crashed", zap.Any("panic", r))
+		}
+	}()
 	for s.processSession(sessionCtx, session) {
 		session.ExtendDeadline()
 	}
-	cancel()
-	s.manager.shutdownSession(ctx, session)
 }
 
 func (s *manager) shutdownSession(ctx context.Context, session *sessions.Session) {
